@@ -27,6 +27,15 @@ def run_family(chk: Check, clauses: tuple[str, ...], runtime: bool, entries: boo
         scen = loadpipe.gen_feature_scenarios(chk, feats, 2, rotate=True)
         # quick: all singles, every second pair (seed picks the phase)
         scen = [s for i, s in enumerate(scen) if len(s["features"]) == 1 or (i + chk.seed) % 2 == 0]
+    # every single feature under EVERY layout (strategy rotated), and a handful of features under the prefix-related layouts
+    singles = [s for s in scen if len(s["features"]) == 1]
+    for i, s in enumerate(singles):
+        for li, l in enumerate(loadpipe.LAYOUTS):
+            scen.append(dict(s, layout=l, strategy=loadpipe.STRATEGIES[(i + li) % 3]))
+    probe = [s for s in singles if s["features"][0] in ("map_typed", "many_errors", "oneof_disc", "inline_object", "params_everywhere", "sse_response", "enum_top", "formats")]
+    for s in (singles if thorough else probe):
+        for l in loadpipe.PREFIX_LAYOUTS:
+            scen.append(dict(s, layout=l))
     # de-duplicate
     seen = set()
     uniq = []
@@ -46,7 +55,15 @@ def run_family(chk: Check, clauses: tuple[str, ...], runtime: bool, entries: boo
         chk.note_drift(f"generation rejected {r['sc']['features']} visibly: {r['gen']['errtype']}: {(r['gen']['err'] or '')[:120]}")
     chk.cov["rejected_visibly"] = len(rejected)
     # entry-point exploration: every single-feature package, and every 8th pair (all pairs when thorough)
-    only = {r["job"]["id"] for i, r in enumerate(accepted) if thorough or len(r["sc"]["features"]) == 1 or i % 8 == 0}
+    first_single: set[str] = set()
+    only = set()
+    for i, r in enumerate(accepted):
+        f = r["sc"]["features"]
+        if thorough or i % 8 == 0:
+            only.add(r["job"]["id"])
+        elif len(f) == 1 and f[0] not in first_single:
+            first_single.add(f[0])
+            only.add(r["job"]["id"])
     predicted = loadpipe.predict_entries(chk, accepted, "features", only=only) if entries else {}
     traces = loadpipe.build_events(chk, accepted, predicted, runtime=runtime, nopp=nopp_all, max_confirm=1 if not thorough else 2)
     # a post-processed sample (default configuration) for the runtime-verbatim clause and formatting-dependent output
